@@ -163,8 +163,8 @@ def run(ck, facts, tier):
                 while x.get("k") == "ref":
                     x = x["e"]
                 return x.get("k") == "mcall" and x["m"] == "abs" and x["recv"].get("k") == "field" and x["recv"]["name"] == "0"
-            okm = is_abs0(pcs[0]["recv"]) and is_abs0(pcs[0]["args"][0]) and any(e.get("k") == "mcall" and e["m"] == "max_by" for e in hir.walk(am["body"])) and \
-                any(e.get("k") == "field" and e["name"] == "1" for e in hir.walk(am["body"]))
+            okm = is_abs0(pcs[0]["recv"]) and is_abs0(pcs[0]["args"][0]) and any(e.get("k") == "field" and e["name"] == "1" for e in hir.walk(am["body"])) and \
+                (any(e.get("k") == "mcall" and e["m"] == "max_by" for e in hir.walk(am["body"])) or _running_max_scan(am["body"], pcs[0]))
     ck.check(r1, "argabsmax", okm, "argabsmax is not: index (.1) of max_by(|x, y| x.0.abs().partial_cmp(&y.0.abs()))", "rust/dual/linalg/linalg_dual.rs", sample="max_by on |.| returning the zipped index")
 
     # back substitution siblings
@@ -264,6 +264,63 @@ def run(ck, facts, tier):
     ck.not_decided += ["that Gaussian elimination with partial pivoting returns the true solution and its derivatives for all well-conditioned systems (numerical correctness)",
                        "row-order independence as executed", "each loop body is evaluated once symbolically; the update statements, not their iteration-by-iteration effect, are compared"]
     ck.trusted += ["lib/cel.py array model (read-through, ordered write lists)"]
+
+
+def _running_max_scan(body, pc):
+    """The hand-written form of `max_by(|x, y| |x.0| cmp |y.0|)` (which keeps the LAST of several maxima): the running element starts as the first pull of the
+    iterator; `for y in rest { if !(|run.0| > |y.0|) { run = y } }` — the replacement test is `cmp != Greater` with an incomparable pair counted as not greater."""
+    def strip(x):
+        while isinstance(x, dict) and (x.get("k") in ("ref", "paren") or (x.get("k") == "block" and not x.get("stmts") and "e" in x)):
+            x = x["e"]
+        return x
+    loops = [e for e in hir.walk(body) if e.get("k") == "for"]
+    if len(loops) != 1 or strip(loops[0]["pat"]).get("k") != "bind":
+        return False
+    lp = loops[0]
+    elem = strip(lp["pat"])["id"]
+    lets = {}
+    for blk in [body] + [e for e in hir.walk(body) if e.get("k") == "block"]:
+        for e in blk.get("stmts", []) if blk.get("k") == "block" else []:
+            if e.get("k") == "let" and strip(e["pat"]).get("k") == "bind" and "init" in e:
+                lets[strip(e["pat"])["id"]] = e["init"]
+    assigns = [e for e in hir.walk(lp["body"]) if e.get("k") == "assign"]
+    if len(assigns) != 1:
+        return False
+    l_, r_ = strip(assigns[0]["l"]), strip(assigns[0]["r"])
+    if not (l_.get("k") == "path" and l_.get("res") == "local" and r_.get("k") == "path" and r_.get("res") == "local" and r_["id"] == elem):
+        return False
+    run = l_["id"]
+    init = strip(lets.get(run, {}))
+    if not (init.get("k") == "mcall" and init["m"] in ("unwrap", "expect") and strip(init["recv"]).get("k") == "mcall" and strip(init["recv"])["m"] == "next"):
+        return False
+    it_ = strip(strip(init["recv"])["recv"])
+    if not (it_.get("k") == "path" and strip(lp["iter"]).get("k") == "path" and strip(lp["iter"]).get("id") == it_.get("id")):
+        return False          # the loop runs over the rest of the same iterator
+    # operands: |run.0| against |elem.0|, in that order
+    def base_id(x):
+        x = strip(x)
+        return strip(x["recv"]["e"])["id"] if x.get("k") == "mcall" and x["m"] == "abs" and strip(x["recv"]).get("k") == "field" and strip(strip(x["recv"])["e"]).get("k") == "path" else None
+    try:
+        if (base_id(pc["recv"]), base_id(pc["args"][0])) != (run, elem):
+            return False
+    except (KeyError, TypeError):
+        return False
+    ifs = [e for e in hir.walk(lp["body"]) if e.get("k") == "if" and any(x is assigns[0] for x in hir.walk(e["t"]))]
+    if len(ifs) != 1 or "e" in ifs[0]:
+        return False
+    c = strip(ifs[0]["c"])
+    if not (c.get("k") == "bin" and c["op"] == "Ne"):
+        return False
+    lhs, rhs = strip(c["l"]), strip(c["r"])
+    if lhs.get("k") == "path" and lhs.get("res") == "local" and lhs["id"] in lets:
+        lhs = strip(lets[lhs["id"]])
+    is_pc = lambda x: any(y is pc for y in hir.walk(x))
+    greater = lambda x: x.get("k") == "path" and (x.get("def") or "").endswith("Ordering::Greater")
+    if lhs.get("k") == "mcall" and lhs["m"] == "unwrap_or" and strip(lhs["recv"]) is pc and (strip(lhs["args"][0]).get("def") or "").endswith("Ordering::Equal") and greater(rhs):
+        return True          # cmp.unwrap_or(Equal) != Greater
+    if lhs is pc and rhs.get("k") == "call" and (strip(rhs["f"]).get("def") or "").endswith("::Some") and greater(strip(rhs["args"][0])):
+        return True          # cmp != Some(Greater)
+    return False
 
 
 CARRIERS = {"expect", "unwrap", "view", "as_array", "to_owned", "into_raw_vec", "to_vec", "into_owned", "clone", "into_dimensionality", "as_standard_layout"}
